@@ -137,6 +137,8 @@ def corner_schemas():
         S("options", "uint8", [("A", 0), ("B", 2)]),
         T("str16", "char", length=16),
         C("compA", [T("number", "uint32"), T("arr", "uint8", length=3), E("en", "uint16", [("X", 7)]), S("st", "uint16", [("c12", 12), ("c0", 0), ("c15", 15)]), R("again", "u32opt")]),
+        T("zero0", "uint8", length=0),
+        C("zcomp", [T("kind", "uint8"), T("mark", "char", length=0), T("name", "char", length=4), R("tail", "zero0"), T("crc", "uint32")]),
     ]
     lvl_fields = [F("builtin", "uint32"), F("number", "u32req"), F("enumeration", "numbers"), F("set", "options"), F("array", "str16"), F("composite", "compA")]
     out.append(schema("conv", "littleEndian", header(), common, [
@@ -144,6 +146,9 @@ def corner_schemas():
         M("m1", [F("number", "uint32")], [G("group", "groupSizeEncoding", [F("number", "uint32")])], [D("data", "varDataEncoding")]),
         M("m2", [], [], []),
         M("m3", [], [], [D("d1", "varDataEncoding"), D("d2", "varDataEncoding")]),
+        # zero-length array members inside a composite, inline and through a <ref> (appended: earlier
+        # message indices, and with them the committed regression plans, stay as they were)
+        M("m4", [F("frame", "zcomp"), F("after", "uint16")], [G("group", "groupSizeEncoding", [F("frame", "zcomp")])], [D("data", "varDataEncoding")]),
     ]))
     # 2. big-endian; reordered header with a gap, ref-typed uint64 blockLength, counters;
     #    dimensions uint8/uint32 (with offset) and uint64/uint64; data lengths uint8 and uint64
@@ -269,7 +274,7 @@ def random_schema(seed, idx):
     for i in range(r.range(0, 2)):
         els = []
         for j in range(r.range(1, 4)):
-            kind = r.below(6)
+            kind = r.below(8)
             off = None
             if kind == 0 and scal:
                 els.append(R(nm("m"), r.pick(scal)["name"]))
@@ -281,6 +286,10 @@ def random_schema(seed, idx):
                 els.append(R(nm("m"), r.pick(consts)["name"]))
             elif kind == 4 and (enums or sets):
                 els.append(R(nm("m"), r.pick(enums + sets)["name"]))
+            elif kind == 6 and arrs:
+                els.append(R(nm("m"), r.pick(arrs)["name"]))
+            elif kind == 7:
+                els.append(T(nm("m"), r.pick(["char", "uint8"]), length=r.pick([0, 0, 1, 3])))
             else:
                 els.append(T(nm("m"), r.pick(list(PRIMS)), presence=r.pick(["required", "optional"])))
             if r.chance(1, 6):
